@@ -234,4 +234,170 @@ theorem factor_test {e : Env} {tmax Y : ℕ} (hF : FactorOK e tmax Y) {q m : ℕ
       refine ⟨⟨fun h => ⟨by norm_num, h⟩, fun h => h.2⟩, fun _ => ?_⟩
       rw [if_pos hmfodd]
 
+/-! ### the two level enumerations of S2_hard_thread -/
+
+attribute [local irreducible] ftToNumber ftToIndex
+
+theorem toIndex_mono {a b : ℕ} (ha : 1 ≤ a) (hab : a ≤ b) : toIndex a ≤ toIndex b :=
+  (le_toIndex_iff b (by omega) _).2 (le_trans (ftToNumber_toIndex_le a ha) hab)
+
+/-- first loop (S2_hard.cpp:101-131): a level `b ≤ π√y` that does not break -/
+theorem s2Level1_items {e : Env} {P tmax x y z b lo hi : ℕ} (hE : EnvOK e P) (hF : FactorOK e tmax y)
+    (hyx : y * y ≤ x) (hb5 : 5 ≤ b) (hbP : b ≤ π P) (hbs : b ≤ π (Nat.sqrt y)) (hlh : lo < hi)
+    (hnb : ¬ brk x y z b lo) :
+    ∃ its, s2Level1 e x y lo hi b = .ok (some its) ∧ ItemsOK lo hi 0 its ∧ itemSum b its = W1 x y b lo hi := by
+  have hb1 : 1 ≤ b := by omega
+  have hpb : e.primes b = p b := hE.primes_eq b hb1 hbP
+  have hq0 : 0 < p b := Spec.p_pos b
+  have hqp : (p b).Prime := Spec.p_prime hb1
+  have hqs : p b ≤ Nat.sqrt y := (Spec.p_le_iff hb1).2 hbs
+  have hqq : p b * p b ≤ y := Nat.le_sqrt.1 hqs
+  have hqy : p b ≤ y := le_trans hqs (Nat.sqrt_le_self y)
+  have hq11 : 11 ≤ p b := by
+    have : p 5 ≤ p b := Spec.p_le_p hb5
+    have e5 : p 5 = 11 := Spec.p_five
+    omega
+  have hyq : p b ≤ y / p b := (Nat.le_div_iff_mul_le hq0).2 hqq
+  unfold brk at hnb
+  rw [if_pos hbs] at hnb
+  unfold cap at hnb
+  rw [if_pos hbs] at hnb
+  unfold s2Level1
+  rw [hpb, hE.primesSize, if_neg (by omega), if_neg (by omega), if_neg hnb]
+  set maxM := min (x / p b / max lo 1) y with hmaxM
+  set minM := max (min (x / p b / hi) y) (y / p b) with hminM
+  have hminM1 : 1 ≤ minM := by rw [hminM]; omega
+  have hmaxy : maxM ≤ y := min_le_right _ _
+  have hmax1 : 1 ≤ maxM := by omega
+  rw [if_neg (by omega), if_neg]
+  swap
+  · rw [hF.size]
+    have : toIndex maxM ≤ toIndex (max 1 y) := toIndex_mono hmax1 (by omega)
+    omega
+  refine ⟨_, rfl, ?_, ?_⟩
+  · -- positions
+    apply leafItems1_ok
+    intro I hI1 hI2
+    have hIle : toIndex minM ≤ toIndex maxM := by
+      by_contra hc
+      have : toIndex maxM - toIndex minM = 0 := by omega
+      omega
+    have g1 : minM < ftToNumber I := (toIndex_lt_iff minM hminM1 I).1 hI1
+    have g2 : ftToNumber I ≤ maxM := (le_toIndex_iff maxM hmax1 I).1 (by omega)
+    have hm0 : 0 < ftToNumber I := by omega
+    have g3 : ftToNumber I ≤ x / p b / max lo 1 := le_trans g2 (min_le_left _ _)
+    have g4 : max lo 1 ≤ x / (p b * ftToNumber I) := (le_div_div_iff x _ _ _ hq0 hm0 (by omega)).1 g3
+    have g5 : x / p b / hi < ftToNumber I := by
+      have : min (x / p b / hi) y < ftToNumber I := lt_of_le_of_lt (le_max_left _ _) g1
+      omega
+    have g6 := (div_div_lt_iff x (p b) _ hi hm0 (by omega)).1 g5
+    rw [Nat.div_div_eq_div_mul]
+    exact ⟨by omega, g6⟩
+  · -- value
+    rw [leafItems1_sum e (p b) (x / p b) b minM maxM hminM1 (Good (p b)) (fun m => μ m)
+      (fun m hm h1 h2 => factor_test hF hqp (by omega) hqs hm (by omega) (by omega))]
+    unfold W1
+    congr 1
+    rw [← Finset.sum_filter, Finset.filter_filter]
+    apply Finset.sum_congr
+    · ext m
+      simp only [mem_filter, mem_Ioc]
+      constructor
+      · rintro ⟨⟨h1, h2⟩, _, hg⟩
+        have hm0 := good_pos hg
+        have g3 : m ≤ x / p b / max lo 1 := le_trans h2 (min_le_left _ _)
+        have g4 := (le_div_div_iff x _ _ _ hq0 hm0 (by omega)).1 g3
+        have g5 : x / p b / hi < m := by
+          have : min (x / p b / hi) y < m := lt_of_le_of_lt (le_max_left _ _) h1
+          omega
+        have g6 := (div_div_lt_iff x (p b) _ hi hm0 (by omega)).1 g5
+        exact ⟨⟨lt_of_le_of_lt (le_max_right _ _) h1, by omega⟩, hg, by omega, g6⟩
+      · rintro ⟨⟨h1, h2⟩, hg, h3, h4⟩
+        have hm0 := good_pos hg
+        have hpos := pos_of_leaf hyx hqy h2 hq0 hm0
+        have g5 := (div_div_lt_iff x (p b) _ hi hm0 (by omega)).2 h4
+        have g3 := (le_div_div_iff x _ m (max lo 1) hq0 hm0 (by omega)).2 ((max_one_le_iff _ _ hpos).2 h3)
+        refine ⟨⟨?_, ?_⟩, good_c2310 hq11 hg, hg⟩
+        · rw [hminM, max_lt_iff]; exact ⟨lt_of_le_of_lt (min_le_left _ _) g5, h1⟩
+        · rw [hmaxM, le_min_iff]; exact ⟨g3, h2⟩
+    · intro m _
+      rw [Nat.div_div_eq_div_mul]
+
+/-- second loop (S2_hard.cpp:137-160): a level `b > π√y` that does not break -/
+theorem s2Level2_items {e : Env} {P x y z b lo hi : ℕ} (hE : EnvOK e P) (hP : P = min y (z / Nat.sqrt y)) (hy : 1 ≤ y)
+    (hzx : z ≤ x) (hb1 : 1 ≤ b) (hbP : b ≤ π P) (hbs : ¬ b ≤ π (Nat.sqrt y)) (hlh : lo < hi) (hnb : ¬ brk x y z b lo) :
+    ∃ its, s2Level2 e x y z lo hi b = .ok (some its) ∧ ItemsOK lo hi 0 its ∧ itemSum b its = W2 x y z b lo hi := by
+  have hpb : e.primes b = p b := hE.primes_eq b hb1 hbP
+  have hq0 : 0 < p b := Spec.p_pos b
+  have hqs : Nat.sqrt y < p b := (Spec.lt_p_iff hb1).2 (by omega)
+  have hs0 : 0 < Nat.sqrt y := Nat.sqrt_pos.2 hy
+  unfold brk at hnb
+  rw [if_neg hbs] at hnb
+  unfold cap at hnb
+  rw [if_neg hbs] at hnb
+  unfold s2Level2
+  rw [hpb, hE.primesSize, hE.piMax, if_neg (by omega), if_neg (by omega)]
+  set a := min (min (x / p b / max lo 1) y) (z / p b) with ha
+  have haP : a ≤ P := by
+    rw [hP, le_min_iff]
+    refine ⟨le_trans (min_le_left _ _) (min_le_right _ _), le_trans (min_le_right _ _) ?_⟩
+    exact Nat.div_le_div_left hqs.le hs0
+  rw [if_neg (by omega), hE.pi_eq a haP, if_neg (by have := Spec.pi_mono haP; omega)]
+  have hl1 : 1 ≤ π a := by omega
+  have hpl : e.primes (π a) = p (π a) := hE.primes_eq _ hl1 (Spec.pi_mono haP)
+  rw [hpl, if_neg (by have := Spec.p_lt_p hb1 (show b < π a by omega); omega)]
+  have hprimes : ∀ i, 1 ≤ i → i ≤ π a → e.primes i = p i :=
+    fun i h1 h2 => hE.primes_eq i h1 (le_trans h2 (Spec.pi_mono haP))
+  set minHard := max (min (x / p b / hi) y) (p b) with hmh
+  -- membership in the visited index range
+  have hmem : ∀ i, (π minHard < i ∧ i ≤ π a) ↔
+      (b < i ∧ i ≤ π y) ∧ p b * p i ≤ z ∧ lo ≤ x / (p b * p i) ∧ x / (p b * p i) < hi := by
+    intro i
+    constructor
+    · rintro ⟨h1, h2⟩
+      have hi1 : 1 ≤ i := by omega
+      have hpi0 := Spec.p_pos i
+      have g1 : minHard < p i := (Spec.lt_p_iff hi1).2 h1
+      have g2 : p i ≤ a := (Spec.p_le_iff hi1).2 h2
+      have g3 : p i ≤ x / p b / max lo 1 := le_trans g2 (le_trans (min_le_left _ _) (min_le_left _ _))
+      have g4 : p i ≤ y := le_trans g2 (le_trans (min_le_left _ _) (min_le_right _ _))
+      have g5 : p i ≤ z / p b := le_trans g2 (min_le_right _ _)
+      have g6 := (le_div_div_iff x _ _ _ hq0 hpi0 (by omega)).1 g3
+      have g7 : x / p b / hi < p i := by
+        have : min (x / p b / hi) y < p i := lt_of_le_of_lt (le_max_left _ _) g1
+        omega
+      have g8 := (div_div_lt_iff x (p b) _ hi hpi0 (by omega)).1 g7
+      have g9 : p b < p i := lt_of_le_of_lt (le_max_right _ _) g1
+      refine ⟨⟨(Spec.p_lt_p_iff hb1 hi1).1 g9, (Spec.p_le_iff hi1).1 g4⟩, ?_, by omega, g8⟩
+      have := (Nat.le_div_iff_mul_le hq0).1 g5
+      rw [Nat.mul_comm]; exact this
+    · rintro ⟨⟨h1, h2⟩, h3, h4, h5⟩
+      have hi1 : 1 ≤ i := by omega
+      have hpi0 := Spec.p_pos i
+      have g4 : p i ≤ y := (Spec.p_le_iff hi1).2 h2
+      have g9 : p b < p i := Spec.p_lt_p hb1 h1
+      have hpos : 1 ≤ x / (p b * p i) :=
+        (Nat.le_div_iff_mul_le (Nat.mul_pos hq0 hpi0)).2 (by omega)
+      have g3 := (le_div_div_iff x _ (p i) (max lo 1) hq0 hpi0 (by omega)).2 ((max_one_le_iff _ _ hpos).2 h4)
+      have g7 := (div_div_lt_iff x (p b) _ hi hpi0 (by omega)).2 h5
+      have g5 : p i ≤ z / p b := (Nat.le_div_iff_mul_le hq0).2 (by rw [Nat.mul_comm]; exact h3)
+      refine ⟨(Spec.lt_p_iff hi1).1 ?_, (Spec.p_le_iff hi1).1 ?_⟩
+      · rw [hmh, max_lt_iff]; exact ⟨lt_of_le_of_lt (min_le_left _ _) g7, g9⟩
+      · rw [ha, le_min_iff, le_min_iff]; exact ⟨⟨g3, g4⟩, g5⟩
+  refine ⟨_, rfl, ?_, ?_⟩
+  · apply leafItems2_ok _ _ _ _ _ _ _ hprimes
+    intro i h1 h2
+    have := (hmem i).1 ⟨h1, h2⟩
+    rw [Nat.div_div_eq_div_mul]
+    exact ⟨by omega, this.2.2.2⟩
+  · rw [leafItems2_sum e _ b minHard _ hprimes]
+    unfold W2
+    rw [← Finset.sum_filter, Finset.filter_filter]
+    apply Finset.sum_congr
+    · ext i
+      simp only [mem_filter, mem_Ioc]
+      exact hmem i
+    · intro i _
+      rw [Nat.div_div_eq_div_mul]
+
 end Pc.Hard
